@@ -54,6 +54,14 @@ pub fn client_addr(r: &mut Rng, n: u64) -> SocketAddr {
         let v4 = std::net::Ipv4Addr::new(10, 1 + (n / 200) as u8, (n % 200) as u8, 1);
         return SocketAddr::new(std::net::IpAddr::V6(v4.to_ipv6_mapped()), 20_000 + (n % 20_000) as u16);
     }
+    if r.chance(1, 10) {
+        // a link-local IPv6 source carries a scope id (and a socket may report a flow label): part of the SocketAddr
+        // the datagram came from, so part of the address the session belongs to and answers go to
+        let ip = std::net::Ipv6Addr::new(0xfe80, 0, 0, 0, 0, 0, (n >> 16) as u16, n as u16);
+        let flow = if r.chance(1, 3) { r.range(1, 1 << 20) as u32 } else { 0 };
+        let scope = if flow == 0 || r.chance(1, 2) { r.range(1, 9) as u32 } else { 0 };
+        return SocketAddr::V6(std::net::SocketAddrV6::new(ip, 20_000 + (n % 20_000) as u16, flow, scope));
+    }
     if r.chance(1, 4) {
         nsim::addr6(0x1000 + n as u16, 20_000 + (n % 20_000) as u16)
     } else {
@@ -66,7 +74,13 @@ pub fn mint_for(r: &mut Rng, srv: &Srv, client_id: u64, timeout: i32, expire_s: 
 }
 
 pub fn new_cli(r: &mut Rng, srv: &Srv, client_id: u64, addr: SocketAddr, timeout: i32, expire_s: u64) -> Result<Cli, String> {
-    let m = mint_for(r, srv, client_id, timeout, expire_s);
+    // a quarter of the clients hold a token made by the library's own generator (ConnectToken::generate: keys and nonce
+    // from OS randomness), the others one minted by the harness with seeded keys
+    let m = if r.chance(1, 4) {
+        nsim::mint_lib(srv.now.as_secs(), srv.protocol_id, expire_s, client_id, timeout, &srv.addrs, None, &srv.key).unwrap_or_else(|| mint_for(r, srv, client_id, timeout, expire_s))
+    } else {
+        mint_for(r, srv, client_id, timeout, expire_s)
+    };
     Cli::new(srv.now, m, addr)
 }
 
